@@ -46,8 +46,12 @@ pub fn gen_behaviour(rng: &mut Rng, p: &Profile, len: usize, id: u64) -> Value {
         } else {
             1 + rng.below(p.nkeys as u64) as u32
         };
-        let c = rng.below(100);
+        let mut c = rng.below(100);
         let has_exp = ttl >= 0 || tti >= 0;
+        // the expiry-heavy single-threaded profile uses predicate invalidation more often
+        if p.kind == "unsync" && p.ttls.len() > 4 && c >= 40 && c < 58 && rng.chance(1, 2) {
+            c = 82;
+        }
         let op = if c < 30 {
             let w = if weigher { *rng.pick(&p.weights) } else { 1 };
             let v = vid;
@@ -168,8 +172,8 @@ pub fn profile(name: &str) -> Profile {
         },
         "unsync-exp" => Profile {
             kind: "unsync",
-            nkeys: 3,
-            caps: vec![-1, 2, 2, 3],
+            nkeys: 4,
+            caps: vec![-1, 2, 3, 3],
             ttls: vec![2, 3, 2, 3, 2, -1],
             ttis: vec![-1, -1, 3, 2, 2, 2],
             weights: vec![1, 1, 2],
